@@ -29,7 +29,11 @@ import (
 	v3 "github.com/projectcalico/api/pkg/apis/projectcalico/v3"
 	"github.com/projectcalico/api/pkg/client/clientset_generated/clientset/fake"
 	"github.com/sirupsen/logrus"
+	apierrors "k8s.io/apimachinery/pkg/api/errors"
 	metav1 "k8s.io/apimachinery/pkg/apis/meta/v1"
+	"k8s.io/apimachinery/pkg/runtime"
+	"k8s.io/apimachinery/pkg/runtime/schema"
+	k8stesting "k8s.io/client-go/testing"
 	"k8s.io/client-go/tools/cache"
 
 	"github.com/projectcalico/calico/kube-controllers/pkg/controllers/ippool"
@@ -48,8 +52,8 @@ func (r *rng) next() uint64 {
 	z = (z ^ (z >> 27)) * 0x94d049bb133111eb
 	return z ^ (z >> 31)
 }
-func (r *rng) intn(n int) int     { return int(r.next() % uint64(n)) }
-func (r *rng) chance(p int) bool  { return r.intn(100) < p }
+func (r *rng) intn(n int) int      { return int(r.next() % uint64(n)) }
+func (r *rng) chance(p int) bool   { return r.intn(100) < p }
 func pick[T any](r *rng, xs []T) T { return xs[r.intn(len(xs))] }
 
 // ---------------------------------------------------------------- descriptions
@@ -100,7 +104,11 @@ type world struct {
 	ipam     *recIPAM
 	ctrl     *ippool.IPPoolController
 	blocks   []string
+	sfail    map[string]bool // injected for the current pass: UpdateStatus of these pools fails
+	ufail    map[string]bool // injected for the current pass: Update (finalizers) of these pools fails
 }
+
+var poolGVR = v3.SchemeGroupVersion.WithResource("ippools")
 
 func newWorld() *world {
 	w := &world{
@@ -109,6 +117,32 @@ func newWorld() *world {
 		blockIdx: cache.NewIndexer(cache.MetaNamespaceKeyFunc, cache.Indexers{}),
 		ipam:     &recIPAM{},
 	}
+	// The API server side of a write: status is a subresource (UpdateStatus changes only .status, Update never
+	// changes .status), and a write chosen by the case fails with a conflict and changes nothing.
+	w.cli.PrependReactor("update", "ippools", func(a k8stesting.Action) (bool, runtime.Object, error) {
+		obj := a.(k8stesting.UpdateAction).GetObject().(*v3.IPPool)
+		sub := a.GetSubresource()
+		if (sub == "status" && w.sfail[obj.Name]) || (sub == "" && w.ufail[obj.Name]) {
+			return true, nil, apierrors.NewConflict(schema.GroupResource{Group: "projectcalico.org", Resource: "ippools"}, obj.Name, fmt.Errorf("injected"))
+		}
+		stored, err := w.cli.Tracker().Get(poolGVR, "", obj.Name)
+		if err != nil {
+			return true, nil, err
+		}
+		cur := stored.(*v3.IPPool).DeepCopy()
+		var next *v3.IPPool
+		if sub == "status" {
+			next = cur
+			next.Status = obj.Status.DeepCopy()
+		} else {
+			next = obj.DeepCopy()
+			next.Status = cur.Status
+		}
+		if err := w.cli.Tracker().Update(poolGVR, next, ""); err != nil {
+			return true, nil, err
+		}
+		return true, next.DeepCopy(), nil
+	})
 	w.ctrl = ippool.VerifNewController(context.Background(), w.cli, w.poolIdx, w.blockIdx, w.ipam)
 	return w
 }
@@ -163,7 +197,14 @@ func buildPool(d poolDesc) *v3.IPPool {
 		conds = append(conds, metav1.Condition{Type: "SomethingElse", Status: metav1.ConditionTrue, Reason: "Because"})
 	}
 	if d.cond.set {
-		conds = append(conds, metav1.Condition{Type: v3.IPPoolConditionAllocatable, Status: d.cond.status, Reason: d.cond.reason, Message: "as found"})
+		// the controller's own message for the conditions it writes (it compares the message too before writing)
+		msg := map[string]string{
+			v3.IPPoolReasonOK:          "IPPool is available for IP allocation.",
+			v3.IPPoolReasonCIDROverlap: "CIDR overlaps another pool; disabled to prevent IP allocation conflicts.",
+			v3.IPPoolReasonTerminating: "IPPool is being deleted",
+			v3.IPPoolReasonDisabled:    "IPPool.Spec.Disabled is true",
+		}[d.cond.reason]
+		conds = append(conds, metav1.Condition{Type: v3.IPPoolConditionAllocatable, Status: d.cond.status, Reason: d.cond.reason, Message: msg})
 	}
 	if conds != nil || d.extra {
 		p.Status = &v3.IPPoolStatus{Conditions: conds}
@@ -607,7 +648,7 @@ func genOps(r *rng, w *world, clock *int64, malformed bool, maxPools int) []opDe
 func mk(name string, t int64, cidr string) opDesc {
 	return opDesc{kind: "create", pool: poolDesc{name: name, created: t, cidr: cidr}}
 }
-func nm(kind, name string) opDesc { return opDesc{kind: kind, name: name} }
+func nm(kind, name string) opDesc  { return opDesc{kind: kind, name: name} }
 func blk(kind, cidr string) opDesc { return opDesc{kind: kind, cidr: cidr} }
 
 var scenarios = [][][]opDesc{
@@ -629,8 +670,21 @@ var scenarios = [][][]opDesc{
 	{{mk("b", 2, "10.0.0.0/25"), mk("c", 2, "10.0.0.128/25")}, {mk("a", 1, "10.0.0.0/24")}, {nm("delete", "b")}, {nm("delete", "c")}, {}},
 	// foreign finalizer keeps a never-allocatable terminating pool around
 	{{mk("a", 1, "10.0.0.0/24"), opDesc{kind: "create", pool: poolDesc{name: "b", created: 2, cidr: "10.0.0.0/25", ofin: true}}}, {nm("delete", "b")}, {mk("c", 3, "10.0.0.0/26")}, {nm("delete", "a")}, {}, {nm("dropother", "b")}, {}},
+	// [9] the status write for a freshly terminating pool fails (409): it must keep masking in that very pass
+	{{mk("a", 1, "10.0.0.0/16"), blk("blockadd", "10.0.0.0/26")}, {mk("b", 2, "10.0.0.0/24")}, {nm("delete", "a")}, {}, {}, {blk("blockdel", "10.0.0.0/26")}, {}, {}},
+	// [10] finalizer / status writes of new pools fail, then clean passes
+	{{mk("a", 1, "10.0.0.0/24")}, {mk("b", 2, "10.0.0.0/25")}, {}, {nm("delete", "a")}, {}, {}},
+	// [11] the incumbent is disabled but the status write fails; it is re-enabled before the retry
+	{{mk("a", 1, "10.0.0.0/24"), mk("b", 2, "10.0.0.0/25")}, {nm("disable", "a")}, {nm("enable", "a")}, {}, {}},
 	// ipv6 and ipv4 do not interact
 	{{mk("a", 1, "fd00::/48"), mk("b", 2, "fd00::/64"), mk("c", 2, "0.0.0.0/0")}, {blk("blockadd", "fd00::/122")}, {nm("delete", "a")}, {}, {blk("blockdel", "fd00::/122")}, {}},
+}
+
+// injected write failures of the scripted shapes: scenario index -> step index -> (status failures, finalizer-write failures)
+var scenarioFaults = map[int]map[int][2][]string{
+	9:  {2: {{"a"}, nil}},
+	10: {0: {nil, {"a"}}, 1: {{"b"}, {"b"}}, 3: {{"a"}, nil}},
+	11: {1: {{"a"}, nil}},
 }
 
 // ---------------------------------------------------------------- running one case
@@ -652,14 +706,25 @@ type caseRun struct {
 	overlap bool
 }
 
-func (c *caseRun) reconcileRound(ops []opDesc) {
+func (c *caseRun) reconcileRound(ops []opDesc, sf, uf []string) {
 	w := c.w
 	w.gc()
 	w.sync()
 	pre := w.pools()
 	preTerm, preObs := poolsTerm(pre)
 	w.ipam.released = nil
+	w.sfail, w.ufail = map[string]bool{}, map[string]bool{}
+	var sfT, ufT []string
+	for _, n := range sf {
+		w.sfail[n] = true
+		sfT = append(sfT, bytesTerm(n))
+	}
+	for _, n := range uf {
+		w.ufail[n] = true
+		ufT = append(ufT, bytesTerm(n))
+	}
 	err := w.ctrl.VerifReconcile()
+	w.sfail, w.ufail = nil, nil
 	post := w.pools()
 	postTerm, postObs := poolsTerm(post)
 	var rel []string
@@ -671,9 +736,20 @@ func (c *caseRun) reconcileRound(ops []opDesc) {
 		opTerms = append(opTerms, opTerm(o))
 		opTexts = append(opTexts, opText(o))
 	}
-	c.rounds = append(c.rounds, fmt.Sprintf("(mkRound [%s] %s %s %s [%s] %v)", strings.Join(opTerms, "; "), preTerm, blocksTerm(w.blocks), postTerm,
-		strings.Join(rel, "; "), err != nil))
-	c.key = append(c.key, strings.Join(opTexts, ",")+"|R")
+	c.rounds = append(c.rounds, fmt.Sprintf("(mkRound [%s] [%s] [%s] %s %s %s [%s] %v)", strings.Join(opTerms, "; "), strings.Join(sfT, "; "), strings.Join(ufT, "; "),
+		preTerm, blocksTerm(w.blocks), postTerm, strings.Join(rel, "; "), err != nil))
+	c.key = append(c.key, strings.Join(opTexts, ",")+"|R"+strings.Join(sf, ",")+"/"+strings.Join(uf, ","))
+	if len(sf) > 0 {
+		c.tags["fault:status-write"] = true
+	}
+	if len(uf) > 0 {
+		c.tags["fault:finalizer-write"] = true
+	}
+	for _, a := range pre {
+		if a.DeletionTimestamp != nil && slices.Contains(sf, a.Name) {
+			c.tags["fault:status-write-on-terminating"] = true
+		}
+	}
 	// tags + sample
 	var after []string
 	postBy := map[string]obs{}
@@ -685,7 +761,8 @@ func (c *caseRun) reconcileRound(ops []opDesc) {
 		}
 		after = append(after, fmt.Sprintf("%s %s %s fin=%v other=%v deleting=%v disabled=%v", o.name, o.cidr, st, o.fin, o.ofin, o.deleting, o.disabled))
 	}
-	c.sample = append(c.sample, map[string]any{"ops": opTexts, "blocks": slices.Clone(w.blocks), "after_reconcile": after, "error": err != nil})
+	c.sample = append(c.sample, map[string]any{"ops": opTexts, "blocks": slices.Clone(w.blocks), "after_reconcile": after, "error": err != nil,
+		"status_writes_failing": sf, "finalizer_writes_failing": uf})
 	for i, a := range preObs {
 		if a.deleting {
 			c.tags["has:terminating"] = true
@@ -772,33 +849,70 @@ func runCase(r *rng, tf bool, stream string, idx int) line {
 
 	switch stream {
 	case "config", "malformed":
-		c.reconcileRound(nil)
+		var sf0, uf0 []string
+		if r.chance(35) { // arbitrary configuration AND failing writes in the first pass
+			for _, p := range w.pools() {
+				if r.chance(35) {
+					sf0 = append(sf0, p.Name)
+				}
+				if r.chance(20) {
+					uf0 = append(uf0, p.Name)
+				}
+			}
+		}
+		c.reconcileRound(nil, sf0, uf0)
 		nr := r.intn(3)
 		for i := 0; i < nr; i++ {
 			var ops []opDesc
 			if r.chance(60) {
 				ops = genOps(r, w, &clock, malformed, maxPools+2)
 			}
-			c.reconcileRound(ops)
+			c.reconcileRound(ops, nil, nil)
 		}
 	case "history":
 		nr := 3 + r.intn(4)
 		for i := 0; i < nr; i++ {
-			c.reconcileRound(genOps(r, w, &clock, false, maxPools))
+			c.reconcileRound(genOps(r, w, &clock, false, maxPools), nil, nil)
+		}
+	case "faults":
+		// histories in which some passes have failing status / finalizer writes, with clean passes (retries) in between
+		nr := 4 + r.intn(4)
+		for i := 0; i < nr; i++ {
+			var ops []opDesc
+			if i == 0 || r.chance(65) {
+				ops = genOps(r, w, &clock, false, maxPools)
+			}
+			var sf, uf []string
+			if r.chance(55) {
+				for _, p := range w.pools() {
+					ps, pu := 25, 15
+					if p.DeletionTimestamp != nil {
+						ps = 60
+					}
+					if r.chance(ps) {
+						sf = append(sf, p.Name)
+					}
+					if r.chance(pu) {
+						uf = append(uf, p.Name)
+					}
+				}
+			}
+			c.reconcileRound(ops, sf, uf)
 		}
 	case "scenario":
 		sc := scenarios[idx%len(scenarios)]
 		c.tags[fmt.Sprintf("scenario:%d", idx%len(scenarios))] = true
-		for _, ops := range sc {
+		for si, ops := range sc {
 			for _, o := range ops {
 				w.apply(o)
 			}
-			c.reconcileRound(ops)
+			f := scenarioFaults[idx%len(scenarios)][si]
+			c.reconcileRound(ops, f[0], f[1])
 		}
 		clock = 10
 		nr := r.intn(3)
 		for i := 0; i < nr; i++ {
-			c.reconcileRound(genOps(r, w, &clock, false, 6))
+			c.reconcileRound(genOps(r, w, &clock, false, 6), nil, nil)
 		}
 	}
 	var tags []string
@@ -839,8 +953,10 @@ func main() {
 			stream = "scenario"
 		case k < 5:
 			stream = "config"
-		case k < 9:
+		case k < 7:
 			stream = "history"
+		case k < 9:
+			stream = "faults"
 		default:
 			stream = "malformed"
 		}
